@@ -61,3 +61,13 @@ Definition discovery_outcome_unfixed (F : Z) (dest : N) (aos : list (N * dobs)) 
     (consensus_map N.eqb thr (agg_map (rmn_dkv dest) aos))
     (consensus_map N.eqb thr (agg_map feeq_dkv aos))
     (consensus_map N.eqb thr (agg_map router_dkv aos)).
+
+(* ContractDiscoveryProcessor.ValidateObservation. A contract name is present in Addresses iff its map is non-empty
+   in the generated observations; fee quoter / router entries need the entry's chain, the destination-side contracts
+   (on-ramp, nonce manager, RMN remote) need the destination among the observer's supported chains. *)
+Definition disc_validate (roles : roles_t) (known : list N) (dest : N) (ao : N * dobs) : bool :=
+  let o := fst ao in
+  let ob := snd ao in
+  memN o known &&
+  forallb (fun k => memN k (supported roles o)) (map fst (d_feeq ob) ++ map fst (d_router ob)) &&
+  (match d_onramp ob ++ d_nonce ob ++ d_rmn ob with [] => true | _ => memN dest (supported roles o) end).
